@@ -38,6 +38,15 @@ MUTANTS = {
     'bisect_left': (P + 'callstacks_parser.py', "index_ = bisect(self.dyld_addresses, frame) - 1", "from bisect import bisect_left\n                    index_ = bisect_left(self.dyld_addresses, frame) - 1", ['C15']),
     'dup_replaces': (P + 'callstacks_parser.py', "        if address in self.dyld_addresses:\n            return\n",
                      "        if address in self.dyld_addresses:\n            self.dyld_uuids[self.dyld_addresses.index(address)] = uuid\n            return\n", ['C15']),
+    'v3_drop_last_record': (P + 'kd_buf_parser.py', "for _ in range(size // KEVENT_SIZE):", "for _ in range(max(size // KEVENT_SIZE - 1, 0)):", ['C03']),
+    'more_events_cut': (P + 'kd_buf_parser.py', "            if reader.read(len(TRACEV3_MORE_EVENTS)) != TRACEV3_MORE_EVENTS:\n                break", "            reader.read(len(TRACEV3_MORE_EVENTS))\n            break", ['C03']),
+    'codes_replace': (P + 'kd_buf_parser.py', "self.trace_codes += block.data.decode()", "self.trace_codes = block.data.decode()", ['C03']),
+    'kexts_replace': (P + 'kd_buf_parser.py', "self.kernel_extensions['Binaries'].extend(plistlib.loads(block.data)['Binaries'])", "self.kernel_extensions = plistlib.loads(block.data)", ['C03']),
+    'map_not_cleared': (P + 'kd_buf_parser.py', "        self.threads_pids.clear()\n        self.pids_names.clear()\n", "", ['C02']),
+    'first_entry_wins': (P + 'kd_buf_parser.py', "            self.threads_pids[thread.tid] = thread.pid", "            self.threads_pids.setdefault(thread.tid, thread.pid)", ['C02']),
+    'v2_skip_first': (P + 'kd_buf_parser.py', "        self.set_thread_map(parsed_header.threadmap)\n        while True:", "        self.set_thread_map(parsed_header.threadmap)\n        reader.read(KEVENT_SIZE)\n        while True:", ['C02']),
+    'log_no_table_ext': (P + 'kd_buf_parser.py', "if log_event.process and log_event.thread_identifier:", "if False:", ['C03']),
+    'dyld_replace': (P + 'kd_buf_parser.py', "                if not self.dyld_modules:\n                    self.dyld_modules.update(data)\n                else:\n                    self.dyld_modules['Binaries'].extend(data['Binaries'])", "                self.dyld_modules = data", ['C03']),
 }
 
 
